@@ -124,7 +124,7 @@ def _commit_points(types, batch):
     return exp
 
 
-def _batches(recs, batch):
+def _batches(recs, batch, strict=False):
     from flow.record import RecordWriter
 
     with tempfile.TemporaryDirectory() as td:
@@ -135,8 +135,11 @@ def _batches(recs, batch):
             w.write(r)
             seen.append(_total_rows(p))
         exp = _commit_points([r._desc for r in recs], batch)
-        if seen != exp:
-            return f"rows visible to another connection after each write {seen}, commit points give {exp}"
+        whole = [((i + 1) // batch) * batch for i in range(len(recs))]  # what the statement says: whole batches only
+        if strict and seen != whole:
+            return f"rows visible to another connection after each write {seen} - a part of the batch is visible (whole batches: {whole})"
+        if seen != exp and seen != whole:
+            return f"rows visible to another connection after each write {seen}; whole batches give {whole} (with the commit in front of a new record type: {exp})"
         w.close()
         if _total_rows(p) != len(recs):
             return f"after close() {_total_rows(p)} rows are committed, {len(recs)} were written"
@@ -148,13 +151,13 @@ def _batches(recs, batch):
     return content
 
 
-def c18_batches(n=3, batch=2):
+def c18_batches(n=3, batch=2, strict=False):
     from flow.record import RecordDescriptor
 
     D = RecordDescriptor("c18/b", [("varint", "n"), ("string", "s")])
     E = RecordDescriptor("c18/e", [("varint", "n")])
     recs = [E(n=i, _generated=GEN) if i == 2 else D(n=i, s=f"r{i}", _generated=GEN) for i in range(n)]
-    res = _batches(recs, batch)
+    res = _batches(recs, batch, strict)
     if isinstance(res, str):
         return {"violates": True, "detail": res}
     ref = _batches(recs, 1)
